@@ -211,3 +211,36 @@ Definition reply_rcode (b : bytes) : N := reply_bits b mod 16.
 Definition reply_an (b : bytes) : N := nth 6 b 0 * 256 + nth 7 b 0.
 Definition reply_ns (b : bytes) : N := nth 8 b 0 * 256 + nth 9 b 0.
 Definition reply_ar (b : bytes) : N := nth 10 b 0 * 256 + nth 11 b 0.
+
+(* ---------- stream framing: server.go serveTCPConn / readTCP ----------
+   A stream message is a two-octet big-endian length followed by that many
+   octets.  readTCP reads both with full reads (binary.Read / io.ReadFull), so
+   what it returns is a function of the octet stream alone, not of the way the
+   transport cuts the stream into reads: the model therefore takes the stream.
+   serveTCPConn serves at most [limit] messages per connection (MaxTCPQueries,
+   128 when unset) and stops at the first frame the stream does not complete. *)
+Definition frame (m : bytes) : bytes := u16 (lenN m) ++ m.
+
+Fixpoint read_frames (limit : nat) (s : bytes) : list bytes :=
+  match limit with
+  | O => []
+  | S k =>
+    match s with
+    | hi :: lo :: r =>
+      let n := N.to_nat (hi * 256 + lo) in
+      if Nat.ltb (length r) n then [] else firstn n r :: read_frames k (skipn n r)
+    | _ => []
+    end
+  end.
+
+(* what can follow the last complete frame: nothing, half a length prefix, or a
+   prefix announcing more octets than the stream still has *)
+Definition incomplete_frame (t : bytes) : Prop :=
+  match t with
+  | hi :: lo :: r => lenN r < hi * 256 + lo
+  | _ => True
+  end.
+
+Definition serve_stream {R} (accept : header -> action) (unpack : bytes -> unpack_result R)
+           (limit : nat) (s : bytes) : list (event R) :=
+  flat_map (serve accept unpack Tcp) (read_frames limit s).
